@@ -33,6 +33,31 @@ def _run_structural(ctx):
     if n_release == 0:
         r1.violation(construct, "no release of the core semaphore found: every task would keep its core forever", fi.where)
 
+    # who owns a core is a fact about ONE task: the guard of a release may read locals of this invocation, or shared state keyed by the task's unique id -
+    # never shared state keyed by something several live tasks can have in common (the target name, the working directory)
+    tid_p = fi.positional_params()[1] if len(fi.positional_params()) > 1 else "tid"
+    own = f"{fi.module.relpath}::Scheduler::core-ownership-key"
+    n_guards = 0
+    for n in walk_no_nested(fi.node):
+        if not (isinstance(n, ast.Call) and sem._sem_call(n, "release") is n):
+            continue
+        cur = n
+        while getattr(cur, "_parent", None) is not None and cur._parent is not fi.node:
+            par = cur._parent
+            if isinstance(par, (ast.If, ast.While)) and cur in par.body:
+                n_guards += 1
+                shared = [a for a in ast.walk(par.test) if isinstance(a, ast.Attribute) and isinstance(a.value, ast.Name) and a.value.id == "self"
+                          and a.attr != sem.info["sem"]]
+                mentions_tid = any(isinstance(a, ast.Name) and a.id == tid_p for a in ast.walk(par.test))
+                if shared and not mentions_tid:
+                    others = sorted({a.id for a in ast.walk(par.test) if isinstance(a, ast.Name) and a.id not in ("self", "True", "False", "None")})
+                    r1.violation(own, f"the release at line {n.lineno} is guarded by `{ast.unparse(par.test)}`: shared scheduler state (self.{shared[0].attr}) that is not keyed by the task id "
+                                 f"`{tid_p}` (it reads {others or 'no per-task value'}). Two live tasks that agree on that key - e.g. targets of the same name from two projects sharing the pool, or "
+                                 "a cancelled target resubmitted while the old task is still being killed - release each other's core: more tasks run than there are cores, or a "
+                                 "core is lost", loc(par, fi.module))
+            cur = par
+    r1.ok(own + "::guards", f"{n_guards} guard(s) around release sites examined: ownership is decided per task", fi.where)
+
     # R2 no leak, no double acquire
     r2 = ctx.rule("R2", "a core that was acquired is released exactly once before the coroutine ends")
     leaks = [o for o in outs if o.state.facts.get("acq")]
